@@ -97,50 +97,7 @@ def safety(text, script, cfg, configs=CONFIGS):
     return list(seen.items()), info
 
 
-def flipped(prog):
-    """The same program with every IF condition negated (block IF, ELSEIF
-    and single-line IF): the branches the original run skips are executed.
-    Loops are left alone (they would not terminate).  None if there is no
-    IF."""
-    import copy
-    from qv import ast as A
-    p2 = copy.deepcopy(prog)
-    n = 0
-
-    def neg(c):
-        return A.Un('NOT', A.Paren(c), '&')
-    def mentions(node, name):
-        """Does the subtree call the procedure `name`?"""
-        if isinstance(node, (A.CallSub, A.FCall)) and \
-                node.name.rstrip('%&!#$') == name:
-            return True
-        if isinstance(node, (list, tuple)):
-            return any(mentions(x, name) for x in node)
-        if isinstance(node, A.Node):
-            for cls in type(node).__mro__:
-                for f in getattr(cls, '__slots__', ()):
-                    if mentions(getattr(node, f, None), name):
-                        return True
-        return False
-
-    def flip_body(body, recursive):
-        nonlocal n
-        for s_, _ in A.walk_stmts(body):
-            if isinstance(s_, A.Proc):
-                continue
-            if recursive and isinstance(s_, (A.If, A.IfLine)):
-                continue        # a recursion guard must stay as it is
-            if isinstance(s_, A.If):
-                s_.arms = [(neg(c), b) for c, b in s_.arms]
-                n += 1
-            elif isinstance(s_, A.IfLine):
-                s_.cond = neg(s_.cond)
-                n += 1
-    procs = [s_ for s_ in p2.body if isinstance(s_, A.Proc)]
-    flip_body([s_ for s_ in p2.body if not isinstance(s_, A.Proc)], False)
-    for pr in procs:
-        flip_body(pr.body, mentions(pr.body, pr.name.rstrip('%&!#$')))
-    return p2 if n else None
+from qv.variants import flipped   # noqa: E402
 
 
 def check(case, cfg):
